@@ -25,6 +25,7 @@ Common(e, enc, dec, backOk, what) ==
   /\ Check(dec.ok /\ dec.p = Len(enc) + 1, what \o "_spec_decoder_consumes_exactly")
   /\ Check(~Has(e, "rexc"), what \o "_reader_raised")
   /\ (Has(e, "consumed") => Check(e.consumed = Len(e.bytes), what \o "_reader_consumes_exactly_the_bytes_written"))
+  /\ (Has(e, "more") => Check(e.more, what \o "_lookahead_reports_the_bytes_that_follow"))
   /\ Check(backOk, what \o "_read_back_equal")
 
 Step(e) ==
@@ -52,7 +53,7 @@ Step(e) ==
          /\ Check(e.bytes = EncRecurrence(r), "recurrence_writer_emits_documented_encoding")
          /\ Check(~Has(e, "rexc") /\ Has(e, "back") /\ e.eq /\ e.back.name = r.name /\ e.back.savings = r.savings
                   /\ Yo(e.back.yo) = r.yo /\ e.back.to = r.to /\ (r.from > 0 => e.back.from = r.from), "recurrence_read_back_equal")
-         /\ Check(e.consumed = Len(e.bytes), "recurrence_reader_consumes_exactly_the_bytes_written")
+         /\ (Has(e, "consumed") => Check(e.consumed = Len(e.bytes), "recurrence_reader_consumes_exactly_the_bytes_written"))
     [] e.op = "zone" ->
          LET z == Zone(e.v) enc == EncZone(z) d == DecZone(enc, 1, e.pool) IN
          /\ Common(e, enc, d, Has(e, "back") /\ Zone(e.back) = z, "precalculated_zone")
@@ -62,7 +63,20 @@ Step(e) ==
          LET RECURSIVE Pairs(_)
              Pairs(k) == IF k > Len(e.keys) THEN <<>> ELSE EncStringRaw(e.keys[k]) \o EncStringRaw(e.vals[k]) \o Pairs(k + 1)
          IN  /\ Check(e.bytes = EncCount(Len(e.keys)) \o Pairs(1), "dictionary_writer_emits_documented_encoding")
-             /\ Check(~Has(e, "rexc") /\ e.back_equal /\ e.consumed = Len(e.bytes), "dictionary_read_back_equal")
+             /\ Check(~Has(e, "rexc") /\ Has(e, "back_equal") /\ e.back_equal /\ Has(e, "consumed") /\ e.consumed = Len(e.bytes), "dictionary_read_back_equal")
+    [] e.op = "fixed_zone" ->
+         \* a fixed zone of a reference-compiled database: offset, then - when bytes remain - the interval name as a pool index
+         \* (the reader decides "bytes remain" with its one-byte lookahead, which must not swallow the byte it looked at)
+         LET r1 == DecMillis(e.bytes, 1)
+             named == r1.ok /\ r1.p <= Len(e.bytes)
+             r2 == IF named THEN DecStringPooled(e.bytes, r1.p, e.pool) ELSE Fail
+         IN  /\ Check(~Has(e, "exc"), "fixed_zone_reader_raised")
+             /\ Check(r1.ok /\ (named => r2.ok /\ r2.p = Len(e.bytes) + 1), "reference_bytes_are_the_documented_encoding")
+             /\ (Has(e, "offset") /\ r1.ok => Check(e.offset * 1000 = r1.v, "fixed_zone_offset_read_back_equal"))
+             /\ (Has(e, "name") /\ named /\ r2.ok =>
+                    Check(e.index_at[r1.p] = r2.v /\ e.name = e.pool_at[r1.p], "fixed_zone_name_is_the_pool_entry_the_bytes_index"))
+             /\ (Has(e, "name") /\ r1.ok /\ ~named => Check(e.name = e.cps_id, "fixed_zone_without_name_is_named_after_its_id"))
+             /\ (Has(e, "consumed") => Check(e.consumed = Len(e.bytes), "fixed_zone_reader_consumes_exactly_the_bytes_written"))
     [] e.op = "reencode" ->
          \* a zone decoded from a reference-compiled database re-encodes to the bytes it came from
          /\ Check(~Has(e, "exc"), "reencode_raised")
